@@ -1,5 +1,5 @@
 From Coq Require Extraction.
 From Coq Require Import ExtrOcamlBasic.
-From CatV Require Import Bytes Defs Codec Fsm Script.
+From CatV Require Import Bytes Defs Codec Fsm Script Search.
 Extraction Language OCaml.
-Extraction "catmodel_ext" sstep sinit srun st tr hs io mu.
+Extraction "catmodel_ext" sstep sinit srun st tr hs io mu search_command_by_name search_variable_by_name.
